@@ -59,6 +59,7 @@ def stepClos (r : Recv) (ts : List String) : Recv × String :=
   | .stk s, ["mpol", n] => (.stk (s.setMaf (polArg n)), "-")
   | .stk s, ["fold", b] => (.stk (s.setState Gen.flag_cfold (some (b == "1"))), "-")
   | .stk s, ["clrerr"] => (.stk { s with cfg := { s.cfg with err := none } }, "-")
+  | .stk s, ["seterr"] => (.stk { s with cfg := { s.cfg with err := some 7 } }, "-")
   | .stk s, ["ro", b] => (.stk (s.setState Gen.flag_ronly (some (b == "1"))), "-")
   | .stk s, "marshal" :: rest =>
     (match (parseVal rest).1 with
@@ -69,6 +70,7 @@ def stepClos (r : Recv) (ts : List String) : Recv × String :=
   | .cnd c, ["epol", n] => (.cnd (c.setEqf (polArg n)), "-")
   | .cnd c, ["upol", n] => (.cnd (c.setUmf (polArg n)), "-")
   | .cnd c, ["clrerr"] => (.cnd { c with cfg := { c.cfg with err := none } }, "-")
+  | .cnd c, ["seterr"] => (.cnd { c with cfg := { c.cfg with err := some 7 } }, "-")
   | .cnd c, ["fold", _] => (.cnd c, "-")
   | r, _ => (r, "BADOP")
 
